@@ -368,7 +368,7 @@ fn count_producers(c: &Case, obs: &mut Obs) -> PResult {
             rank_point: Some(kq),
         };
         relations(&p, c, obs)?;
-        if n <= 3000 {
+        if n <= 40_000 {
             // elements: the data are a permutation of 0..n, so the element at a rank is the rank itself
             let data: Vec<i64> = (0..n as i64).map(|i| (i * 7919) % n as i64).collect();
             let is_perm = {
@@ -422,7 +422,7 @@ pub fn strategy(max_n: usize) -> impl Strategy<Value = Case> {
             gen::sample_of(f32_, max_n, false),
             gen::sample_of(f32_, max_n, false),
             gen::positive_sample_of(f32_, max_n.min(400)),
-            prop_oneof![4u64..60, 4u64..3000, 4u64..(1u64 << 30)],
+            prop_oneof![10 => 4u64..60, 10 => 4u64..3000, 10 => 4u64..(1u64 << 30), 1 => 9_000u64..40_000],
             any::<u64>(),
             1u32..1000,
             gen::level_hi(),
